@@ -35,6 +35,21 @@ CLAIMED["C19"] = {
     "design_ref": "DESIGN.md §5 C19",
 }
 
+CLAIMED["C11"] = {
+    "text": "Decides necessary structural conditions of once-only initialisation and sharing: (1) every construction site of the module "
+            "cache key (Import::compile x2, Program::add_file x2, Program::execute) uses the one template '{path}#__module__', equal to '#' + the "
+            "function name the compiler emits for module code and the interpreter starts; (2) in the Module arm of process_jump_request the module "
+            "body is reachable only through the None edge of the cache lookup keyed by the request's path, a hit returns the cached value, and "
+            "every Ok return after a run passes the cache insert of the value the run returned; (3) module values are copied with Gc::clone "
+            "(pointer copy) only, at the cache, get_exports and get_file_module; (4) the only mutable borrow of any export map "
+            "(GcCell<VariableMapping>) is in MScriptFile::add_export, which mutates through update_once only, which fails on an existing name; "
+            "(5) Import::compile queues a compilation only under CompilationLock::can_compile and then marks it; (6) Export::add is called only "
+            "from ModuleType::from_node, under the `export` flag tests, and ModuleType::get_property reads exported_members only. Does not decide "
+            "that compile-time and run-time path strings denote the same file, nor import order (run-time history).",
+    "technique": "static analysis: literal agreement, guarded-by / dominators on MIR CFG, type-resolved who-may-mutate, value-origin slicing",
+    "design_ref": "DESIGN.md §5 C11",
+}
+
 NOT_APPLICABLE = {
     "C01": "observable is program output; mechanism is relative jump offsets computed from Vec::len() arithmetic of recursively compiled blocks - deciding it needs symbolic execution of the generators (a different family); see DESIGN.md §5 C01",
     "C09": "a property of the compiler's *output* for all programs (jump targets, frame balance, operand-stack shape): needs symbolic block lengths or a verifier over emitted bytecode (translation validation), not an analysis of /repo's source; DESIGN.md §5 C09",
